@@ -54,13 +54,16 @@ OPFUN = {
 
 
 class Replayer:
-    def __init__(self, st, real, *, wlevel=1, check_c10=True, deep_all=False):
+    def __init__(self, st, real, *, wlevel=1, check_c10=True, deep_all=False, record_obs=False):
         self.st = st
         self.real = real
         self.w = world.World(st, real, wlevel=wlevel)
         self.regs = {}
         self.check_c10 = check_c10
         self.deep_all = deep_all
+        self.record_obs = record_obs
+        self.obs = []
+        self.inexact = {}  # id(obj) -> obj : objects whose coordinates went through a rotation
         self.fails = []
         self.stats = {"steps": 0, "compares": 0, "raised_allowed": 0}
 
@@ -101,6 +104,7 @@ class Replayer:
         regs = self.regs
         snaps = {r: (o, w.snapshot(o)) for r, o in regs.items()}
         touched = set()
+        rebound = set()
         result_reg = None
         tags_res = {}
         outcome = None
@@ -135,19 +139,27 @@ class Replayer:
                 )
                 touched |= {aa, bb}
                 res = OPFUN[op](regs[aa], regs[bb])
+                if id(regs[aa]) in self.inexact or id(regs[bb]) in self.inexact:
+                    self.inexact[id(res)] = res
                 regs[dd] = res
                 result_reg = dd
                 tags_res = {"region": "C01", "kind": "C06", "loops": "C06", "moment": "C04", "vertices": "C06"}
             elif name == "Inv":
                 dd, aa, how = args
                 touched.add(aa)
-                regs[dd] = (~regs[aa]) if how == "inv" else (-regs[aa])
+                src = regs[aa]
+                regs[dd] = (~src) if how == "inv" else (-src)
+                if id(src) in self.inexact:
+                    self.inexact[id(regs[dd])] = regs[dd]
                 result_reg = dd
                 tags_res = {"region": "C01", "kind": "C06", "loops": "C06", "moment": "C04"}
             elif name == "Copy":
                 dd, aa, how = args
                 touched.add(aa)
-                regs[dd] = _copy.copy(regs[aa]) if how == "copy" else _copy.deepcopy(regs[aa])
+                src = regs[aa]
+                regs[dd] = _copy.copy(src) if how == "copy" else _copy.deepcopy(src)
+                if id(src) in self.inexact:
+                    self.inexact[id(regs[dd])] = regs[dd]
                 result_reg = dd
                 tags_res = {"region": "C08", "kind": "C08", "loops": "C08", "moment": "C08"}
             elif name == "InvertInPlace":
@@ -160,12 +172,26 @@ class Replayer:
             elif name == "Transform":
                 dd, aa, gg = args
                 meth, margs, _ = w.gens[gg]
+                if gg not in world.EXACT_GENS:
+                    self.inexact[id(regs[aa])] = regs[aa]
+                rebound.add(dd)
                 r = getattr(regs[aa], meth)(*margs)
                 if r is not regs[aa]:
                     self.fail(k, Failure("C09", "in-place transformation did not return the same object", gen=gg))
                 regs[dd] = regs[aa]
                 result_reg = aa
-                tags_res = {"region": "C09", "kind": "C09", "loops": "C09", "moment": "C09", "type": "C09"}
+                tags_res = {"region": "C09", "kind": "C09", "loops": "C09", "moment": "C09", "type": "C09", "vertices": "C09"}
+                rec = heap_rec(post, post["regs"][aa - 1])
+                if tuple(rec.get("frame", ())) == () and not self.st.pinch(rec["reg"]):
+                    # the transformations applied so far cancel: a shape equal to the original
+                    try:
+                        same = regs[aa] == w.canonical(rec["reg"])
+                    except StepTimeout:
+                        raise
+                    except BaseException as ex:  # noqa
+                        same = repr(ex)
+                    if same is not True:
+                        self.fail(k, Failure("C09", "inverse transformation did not restore a shape == the original", got=repr(same), reg=rec["reg"]))
             elif name == "BadTransform":
                 aa, what = args
                 for bad in BAD_ARGS[what]:
@@ -181,6 +207,7 @@ class Replayer:
                         return False
             elif name == "Alias":
                 dd, aa = args
+                rebound.add(dd)
                 regs[dd] = regs[aa]
             elif name == "Drop":
                 regs.pop(args[0], None)
@@ -245,30 +272,36 @@ class Replayer:
         # ---------------- post-state comparison
         pregs = post["regs"]
         ok = True
+        if name in ("Transform", "InvertInPlace"):
+            tgt = regs[args[1] if name == "Transform" else args[0]]
+            touched |= {r for r, o in regs.items() if o is tgt}
         for r in sorted(regs):
             if pregs[r - 1] == 0:
                 continue
             rec = heap_rec(post, pregs[r - 1])
             obj = regs[r]
+            ex = id(obj) not in self.inexact
             if r == result_reg:
-                ff = w.compare(obj, rec, what="result reg%d of %s" % (r, name), tags=tags_res)
+                ff = w.compare(obj, rec, what="result reg%d of %s" % (r, name), tags=tags_res, exact=ex)
                 self.stats["compares"] += 1
                 if any(f.what in ("region mismatch", "singleton expected", "singleton/unknown returned for a proper region") for f in ff):
                     ok = False
+            elif r in rebound:
+                ff = []
             elif r in touched or (r in snaps and w.snapshot(obj) != snaps[r][1]):
                 # operand of the call (or an object that changed although it was not
                 # involved): region, frame unchanged; segmentation as predicted
                 t = {"region": "C08", "kind": "C08", "loops": "C08", "moment": "C08", "vertices": "C08"}
                 if r not in touched:
                     self.fail(k, Failure("C08", "an object not involved in the call changed", reg=r, action=name))
-                ff = w.compare(obj, rec, what="operand reg%d after %s" % (r, name), tags=t, deep=True)
+                ff = w.compare(obj, rec, what="operand reg%d after %s" % (r, name), tags=t, deep=True, exact=ex)
                 self.stats["compares"] += 1
                 if any(f.what == "region mismatch" for f in ff):
                     ok = False
             else:
                 ff = []
                 if self.deep_all:
-                    ff = w.compare(obj, rec, what="bystander reg%d" % r, tags={"region": "C08", "kind": "C08", "loops": "C08", "moment": "C08"})
+                    ff = w.compare(obj, rec, what="bystander reg%d" % r, tags={"region": "C08", "kind": "C08", "loops": "C08", "moment": "C08"}, exact=ex)
             for f in ff:
                 self.fail(k, f)
         # aliasing / identity structure
@@ -285,6 +318,15 @@ class Replayer:
                     if common:
                         self.fail(k, Failure("C08", "distinct objects share mutable state", r1=r1, r2=r2, nshared=len(common), action=name))
                         ok = False
+        if self.record_obs:
+            for r in rl:
+                if pregs[r - 1] > 2:
+                    try:
+                        self.obs.append((k, r, self.battery(regs[r], tuple(heap_rec(post, pregs[r - 1]).get("frame", ())))))
+                    except StepTimeout:
+                        raise
+                    except BaseException as ex:  # noqa
+                        self.obs.append((k, r, repr(ex)))
         # C10: every live object answers like a deep copy of itself
         if self.check_c10 and name not in ("Alias", "Drop", "QMeasure"):
             for r in rl:
@@ -404,7 +446,7 @@ def run_case(job):
         real = realise.by_name(st.u, rname)
         rp = Replayer(st, real, **(opts or {}))
         fails = rp.run(case)
-        return {"universe": uname, "real": rname, "case": case_id(case), "row": case.get("row"), "fails": fails, "stats": rp.stats, "wall": time.time() - t0,
+        return {"universe": uname, "real": rname, "case": case_id(case), "row": case.get("row"), "fails": fails, "stats": rp.stats, "wall": time.time() - t0, "obs": world._js(rp.obs),
                 "steps": [[n, world._js(a)] for n, a, _ in case["steps"]]}
     except BaseException as ex:  # noqa
         return {"universe": uname, "real": rname, "case": case_id(case), "machinery": traceback.format_exc(), "fails": [], "stats": {}, "wall": time.time() - t0}
